@@ -44,6 +44,10 @@ CONFIGS = {
     # the two documented compile-time switches of the split-full headers (grow-shrink-grow for a 255-value range)
     "maxrange": dict(cc="cc", cflags=["-std=gnu11", "-O2", "-g", "-DNDEBUG", "-fPIC", "-mtune=native",
                                       "-DVARINT_SPLIT_FULL_USE_MAXIMUM_RANGE", "-DVARINT_SPLIT_FULL_NO_ZERO_USE_MAXIMUM_RANGE"]),
+    # strict ISO C mode, as the repository's own CMakeLists request (-std=c11): __STRICT_ANSI__ is defined, GNU-only
+    # branches of the headers are not compiled. The harness needs _GNU_SOURCE for the POSIX declarations it uses.
+    "c11": dict(cc="cc", cflags=["-std=c11", "-D_GNU_SOURCE", "-O2", "-g", "-DNDEBUG", "-fPIC", "-mtune=native"],
+                libcflags=["-std=c11", "-O2", "-g", "-DNDEBUG", "-fPIC", "-mtune=native"]),
     # size-optimised build (MinSizeRel): __OPTIMIZE_SIZE__ is defined, the compiler prefers loops over unrolled code
     "os": dict(cc="cc", cflags=["-std=gnu11", "-Os", "-g", "-DNDEBUG", "-fPIC", "-mtune=native"]),
     # the Release flags of the repository's CMakeLists (-O3)
@@ -89,17 +93,17 @@ CHECKS = {}
 def scalar(prop, rule, expl, dl_quick=100, dl_thorough=3600, configs=None):
     CHECKS[prop] = dict(
         name="scalar", harness=["checks/scalar.c"], libs=LIBS_SCALAR, hygiene=True,
-        configs=configs or {"quick": ["pinned", "debug", "asan", "native", "maxrange", "os"], "thorough": ["pinned", "debug", "asan", "native", "v2", "bmi", "o3", "maxrange", "os"]},
-        shards={"pinned": 16, "debug": 8, "asan": 8, "native": 8, "v2": 8, "bmi": 8, "o3": 8, "maxrange": 8, "os": 8},
+        configs=configs or {"quick": ["pinned", "debug", "asan", "native", "maxrange", "os", "c11"], "thorough": ["pinned", "debug", "asan", "native", "v2", "bmi", "o3", "maxrange", "os", "c11"]},
+        shards={"pinned": 16, "debug": 8, "asan": 8, "native": 8, "v2": 8, "bmi": 8, "o3": 8, "maxrange": 8, "os": 8, "c11": 8},
         deadline={"quick": dl_quick, "thorough": dl_thorough},
         # exhaustive prefix [0,2^P): P=32 in the optimised builds, 28 in the slow (unoptimised / sanitised) ones
         tier_env={"quick": {"pinned": {"VERIF_PREFIX_BITS": "24"}, "debug": {"VERIF_PREFIX_BITS": "22"},
                             "asan": {"VERIF_PREFIX_BITS": "22"}, "native": {"VERIF_PREFIX_BITS": "22"},
-                            "maxrange": {"VERIF_PREFIX_BITS": "24"}, "os": {"VERIF_PREFIX_BITS": "22"}},
+                            "maxrange": {"VERIF_PREFIX_BITS": "24"}, "os": {"VERIF_PREFIX_BITS": "22"}, "c11": {"VERIF_PREFIX_BITS": "22"}},
                   "thorough": {"debug": {"VERIF_PREFIX_BITS": "28"}, "asan": {"VERIF_PREFIX_BITS": "28"},
                                "v2": {"VERIF_PREFIX_BITS": "28"}, "bmi": {"VERIF_PREFIX_BITS": "28"},
                                "o3": {"VERIF_PREFIX_BITS": "28"}, "native": {"VERIF_PREFIX_BITS": "30"},
-                               "maxrange": {"VERIF_PREFIX_BITS": "28"}, "os": {"VERIF_PREFIX_BITS": "28"}}},
+                               "maxrange": {"VERIF_PREFIX_BITS": "28"}, "os": {"VERIF_PREFIX_BITS": "28"}, "c11": {"VERIF_PREFIX_BITS": "28"}}},
         rule=rule, explanation=expl,
         assumptions=["reference encoders in /verif/ref are trusted (written from the documented formats)",
                      "2^64 values are covered exhaustively only below 2^P and over the stated alphabets beyond"],
@@ -118,12 +122,12 @@ scalar("C05", "all adjacent pairs (v,v+1) of the exhaustive prefix and boundary 
               "boundary alphabet, all pairs of 2- and 3-tuples over small alphabets; class = (len a, len b, first "
               "differing byte position)",
        "E-enum over pairs: sign(memcmp(enc a, enc b)) == sign(a-b)",
-       configs={"quick": ["pinned", "native", "os"], "thorough": ["pinned", "debug", "native", "bmi", "os"]})
+       configs={"quick": ["pinned", "native", "os", "c11"], "thorough": ["pinned", "debug", "native", "bmi", "os", "c11"]})
 scalar("C12", "all triples (stored value, width, amount) with stored value and target sum over the boundary alphabet "
               "(every sum on, below and above every width boundary upward and downward, every signed-overflow edge) "
               "x {grow, no-grow} x {tagged, external}; class = (family, mode, old width, new width, outcome)",
        "E-enum over triples against int64 reference arithmetic; slot followed by canaries and a guard page",
-       configs={"quick": ["pinned", "debug", "native", "os"], "thorough": ["pinned", "debug", "asan", "native", "bmi", "os"]})
+       configs={"quick": ["pinned", "debug", "native", "os", "c11"], "thorough": ["pinned", "debug", "asan", "native", "bmi", "os", "c11"]})
 
 HOOK_COMMITS = []
 
@@ -170,10 +174,10 @@ ARRAY_RULE = ("every array of the corpus A (S1: all arrays of length 1-3 over a 
               "block structure) combination reached")
 
 
-def arrays(prop, expl, rule_extra="", dl_quick=150, dl_thorough=1800, configs=None):
+def arrays(prop, expl, rule_extra="", dl_quick=150, dl_thorough=7200, configs=None):
     CHECKS[prop] = dict(
-        name="arrays", harness=["checks/arrays.c", "engine/vmalloc.c"], libs=LIBS_ALL, wrap_malloc=True,
-        configs=configs or {"quick": ["pinned", "native"], "thorough": ["pinned", "native", "asan", "debug", "v2", "bmi", "o3", "os"]},
+        name="arrays", harness=["checks/arrays.c", "engine/vmalloc.c"], libs=LIBS_ALL, wrap_malloc=True, constant_alphabet=True,
+        configs=configs or {"quick": ["pinned", "native"], "thorough": ["pinned", "native", "asan", "debug", "v2", "bmi", "o3", "os", "c11"]},
         shards={"pinned": 16, "native": 16, "asan": 16, "debug": 16, "v2": 16, "bmi": 16, "o3": 16, "os": 16},
         deadline={"quick": dl_quick, "thorough": dl_thorough},
         tier_env={"thorough": {"pinned": {"VERIF_GIANT": "1"}, "native": {"VERIF_GIANT": "1"}}},
@@ -226,7 +230,7 @@ CHECKS["C08"] = dict(
 CHECKS["C14"] = dict(
     name="c14", harness=["checks/c14.c", "engine/vmalloc.c"], wrap_malloc=True,
     libs=LIBS_ALL,
-    configs={"quick": ["pinned", "asan"], "thorough": ["pinned", "asan", "debug", "native", "bmi", "os"]},
+    configs={"quick": ["pinned", "asan"], "thorough": ["pinned", "asan", "debug", "native", "bmi", "os", "c11"]},
     shards={"pinned": 16, "asan": 16, "debug": 16},
     deadline={"quick": 150, "thorough": 1800},
     rule="byte-string alphabet B: all strings of length 0-2 over all 256 byte values, all strings of length 3-4 (quick) / "
@@ -246,7 +250,7 @@ CHECKS["C14"] = dict(
 
 CHECKS["C09"] = dict(
     name="packed", harness=["checks/packed.c"], libs=LIBS_ALL, engine="E-enum + E-bfs",
-    configs={"quick": ["pinned", "debug", "native"], "thorough": ["pinned", "debug", "asan", "native", "bmi", "os"]},
+    configs={"quick": ["pinned", "debug", "native"], "thorough": ["pinned", "debug", "asan", "native", "bmi", "os", "c11"]},
     shards={"pinned": 16, "debug": 16, "asan": 16},
     deadline={"quick": 150, "thorough": 1500},
     rule="120 instantiations generated from src/varintPacked.h (every width 1-32 x slot type 8/16/32/64 with width <= slot + "
@@ -272,7 +276,7 @@ CHECKS["C09"] = dict(
 
 CHECKS["C11"] = dict(
     name="bitstream", harness=["checks/bitstream.c", "checks/bitstream32.c"], libs=LIBS_ALL, hygiene=True,
-    configs={"quick": ["pinned", "debug", "native"], "thorough": ["pinned", "debug", "asan", "native", "bmi", "os"]},
+    configs={"quick": ["pinned", "debug", "native"], "thorough": ["pinned", "debug", "asan", "native", "bmi", "os", "c11"]},
     shards={"pinned": 16, "debug": 16, "asan": 16},
     deadline={"quick": 120, "thorough": 1200},
     rule="both supported word types (uint64_t default, uint32_t via VBITS/VBITSVAL) x every bit offset in [0, 3W) x every "
@@ -290,7 +294,7 @@ CHECKS["C11"] = dict(
 CHECKS["C10"] = dict(
     name="dimension", harness=["checks/dimension.c"], libs=LIBS_ALL,
     engine="E-enum + E-bfs",
-    configs={"quick": ["pinned", "native"], "thorough": ["pinned", "native", "debug", "asan", "bmi", "os"]},
+    configs={"quick": ["pinned", "native"], "thorough": ["pinned", "native", "debug", "asan", "bmi", "os", "c11"]},
     shards={"pinned": 16, "native": 16, "debug": 16, "asan": 16},
     deadline={"quick": 120, "thorough": 1200},
     rule="headers: all pairs over a 31-value boundary alphabet through Pack/Unpack (function and macro), all 72 (rows width, "
@@ -313,7 +317,7 @@ CHECKS["C10"] = dict(
 CHECKS["C07"] = dict(
     name="floatc", harness=["checks/floatc.c", "engine/vmalloc.c"], wrap_malloc=True,
     libs=LIBS_ALL,
-    configs={"quick": ["pinned", "debug", "native"], "thorough": ["pinned", "debug", "asan", "native", "v2", "bmi", "os"]},
+    configs={"quick": ["pinned", "debug", "native"], "thorough": ["pinned", "debug", "asan", "native", "v2", "bmi", "os", "c11"]},
     shards={"pinned": 16, "debug": 16, "asan": 16},
     tier_env={"thorough": {"pinned": {"VERIF_GIANT": "1"}}},
     deadline={"quick": 150, "thorough": 1500},
@@ -333,7 +337,7 @@ CHECKS["C07"] = dict(
 CHECKS["C18"] = dict(
     name="c18", harness=["checks/c18.c", "engine/vmalloc.c"], wrap_malloc=True, engine="E-fault", count_alloc_sites=True,
     libs=LIBS_ALL,
-    configs={"quick": ["pinned", "native"], "thorough": ["pinned", "debug", "native", "os"]},
+    configs={"quick": ["pinned", "native"], "thorough": ["pinned", "debug", "native", "os", "c11"]},
     shards={"pinned": 16, "debug": 16},
     deadline={"quick": 150, "thorough": 2400},
     rule="~215 scenarios (every allocating API of dictionary, patched frame-of-reference, float, adaptive and bitmap on inputs "
@@ -357,7 +361,7 @@ CHECKS["C18"] = dict(
 CHECKS["C15"] = dict(
     name="c15", harness=["checks/c15.c", "engine/vmalloc.c"], wrap_malloc=True, engine="E-hist",
     libs=LIBS_ALL,
-    configs={"quick": ["pinned", "msan"], "thorough": ["pinned", "debug", "msan", "native", "os"]},
+    configs={"quick": ["pinned", "msan"], "thorough": ["pinned", "debug", "msan", "native", "os", "c11"]},
     shards={"pinned": 16, "debug": 16, "msan": 16},
     deadline={"quick": 150, "thorough": 1800},
     rule="operation alphabet O of ~115 calls (every encoder / decoder / sizing / metadata entry point on five small fixed inputs, "
